@@ -277,12 +277,24 @@ def run_check(prop, tier, seed):
         for f in futs:
             remaining = deadline - (time.time() - t0)
             try:
-                done.append(f.result(timeout=max(1, remaining)))
+                f.result(timeout=max(1, remaining))
             except Exception as e:  # includes TimeoutError
                 inconclusive.append(f"driver watchdog or error: {type(e).__name__} {e}")
                 for g in futs:
                     g.cancel()
                 break
+    # Leaving the block has waited for every shard that was already running (each is
+    # bounded by its own timeouts). Whatever a finished shard observed counts: a
+    # violation seen by one engine must not be lost because another engine's shard
+    # ran into the watchdog first.
+    for g in futs:
+        if g.done() and not g.cancelled() and g.exception() is None:
+            done.append(g.result())
+        elif g.done() and not g.cancelled():
+            inconclusive.append(f"shard ended with a driver error: {type(g.exception()).__name__} {g.exception()}")
+    cancelled = sum(1 for g in futs if g.cancelled())
+    if cancelled:
+        inconclusive.append(f"{cancelled} of {len(futs)} shards were not started after the watchdog fired")
     cov = None
     if tier == "thorough" or os.environ.get("VERIF_COV") == "1":
         cov = anchor_coverage(prop, plan, seed, tmpdir)
